@@ -14,6 +14,9 @@ pub struct Module {
     pub shape: &'static str,
     /// the attribute line, for reports
     pub config: &'static str,
+    /// the corpus enum carries a hand-written `Ord` that is the REVERSE of discriminant order
+    /// (an implementation must not assume that ascending discriminants are ascending items)
+    pub ord_reversed: bool,
     /// ground truth, sorted by discriminant: (discriminant, name)
     pub disc: &'static [i128],
     pub names: &'static [&'static str],
